@@ -51,18 +51,21 @@ LEAVES = [("d", 0), ("d", 1), ("c", 0), ("c", 1), ("c", 2), ("c", 3)]
 _TREES = {}
 
 
-def trees(k):
-    """all expression trees with exactly k operators (nested tuples)"""
-    if k in _TREES:
-        return _TREES[k]
+LEAVES_NEG = [("d", 0), ("d", 1), ("c", -1), ("c", -2), ("c", 2), ("c", 3)]
+
+
+def trees(k, neg=False):
+    """all expression trees with exactly k operators (nested tuples); neg: the leaf menu with negative constants"""
+    if (k, neg) in _TREES:
+        return _TREES[(k, neg)]
     if k == 0:
-        out = list(LEAVES)
+        out = list(LEAVES_NEG if neg else LEAVES)
     else:
         out = []
         for kl in range(k):
             kr = k - 1 - kl
-            for l in trees(kl):
-                for r in trees(kr):
+            for l in trees(kl, neg):
+                for r in trees(kr, neg):
                     out.append(("+", l, r))
                     # multiplication: a constant on one side
                     if r[0] == "c" or l[0] == "c":
@@ -71,7 +74,7 @@ def trees(k):
                     if r[0] == "c" and r[1] > 0:
                         out.append(("//", l, r))
                         out.append(("%", l, r))
-    _TREES[k] = out
+    _TREES[(k, neg)] = out
     return out
 
 
@@ -137,6 +140,9 @@ def space(tier):
     parts = []
     for k in range(0, b["affine_ops"] + 1):
         parts.append(Tagged("affine", Product([k], range(len(trees(k))))))
+    # negative constants (multipliers, addends): floordiv / mod of negative values
+    for k in range(1, 3 if tier == "quick" else 4):
+        parts.append(Tagged("affine", Product([k], range(len(trees(k, True))), [tier], [True])))
     # matrices: from_affine_map(to_affine_map(M)) == M; eval; compose
     for (r, c) in [(1, 1), (1, 2), (2, 1), (2, 2), (1, 3), (3, 1), (2, 3), (3, 2)]:
         vals = (-2, -1, 0, 1, 2) if r * c <= 4 else (-1, 0, 2)
@@ -201,15 +207,20 @@ def pts(box):
     return list(itertools.product(range(lo, hi + 1), repeat=2))
 
 
-def eval_affine(r, k, idx, tier="quick"):
-    t = trees(k)[idx]
+def eval_affine(r, k, idx, tier="quick", neg=False):
+    t = trees(k, neg)[idx]
     e = to_expr(t)
     key = f"affine|{t!r}"
-    case = dict(kind="affine", k=k, idx=idx, tree=repr(t))
+    case = dict(kind="affine", k=k, idx=idx, tree=repr(t), neg=neg)
     try:
         c = canonicalize_expr(e)
     except RecursionError:
         r.violate(key + "|nonterminating", case, f"canonicalize_expr does not terminate on {e}")
+        return
+    except AssertionError:
+        # a crash, not a wrong answer (xDSL folds the re-associated sum to a non-binary expression): counted, not a violation
+        r.rejected = "canonicalize:AssertionError"
+        r.count("canonicalize_expr_assertion")
         return
     P = pts(BOUNDS[tier]["box"])
     table = []
@@ -503,7 +514,7 @@ def replay(case):
     r = CaseResult()
     k = case["kind"]
     if k == "affine":
-        eval_affine(r, case["k"], case["idx"])
+        eval_affine(r, case["k"], case["idx"], neg=case.get("neg", False))
     elif k == "matrix":
         eval_matrix(r, _t(case["shape"]), _t(case["flat"]), _t(case["off"]))
     elif k == "compose":
